@@ -138,7 +138,8 @@ def generate(rng, tier, index):
     # uncompressed container and the format's own compressor (called directly) does the rest
     producer = "foreign" if (not two and rng.random() < 0.35) else "library"
     return {"container": container, "codec": codec, "writers": writers, "pool": pool, "ops": ops, "reads": reads, "garbage": garbage,
-            "read_buffer_size": rng.choice([8192, 8192, 64, 32]), "producer": producer, "closing": rng.choice(["exit", "exit", "exit", "close"])}  # fmt: skip
+            "read_buffer_size": rng.choice([8192, 8192, 64, 32]), "producer": producer, "closing": rng.choice(["exit", "exit", "exit", "close"]),
+            "clobber": rng.random() < 0.8}  # fmt: skip
 
 
 def gen_garbage(rng):
@@ -341,7 +342,9 @@ def execute(plan, keep_log=False):
         foreign = plan.get("producer") == "foreign"
         for wd in plan["writers"]:
             path = "/simfs/%s.%s%s" % (wd["id"], stem, "" if foreign else EXT[wd["codec"]])
-            writers[wd["id"]] = (RecordWriter(pre + path), path, "none" if foreign else wd["codec"])
+            # clobber=False only refuses to overwrite; the target does not exist here, so it must not change anything
+            wr = RecordWriter(pre + path) if plan.get("clobber", True) else RecordWriter(pre + path, clobber=False)
+            writers[wd["id"]] = (wr, path, "none" if foreign else wd["codec"])
             written[wd["id"]] = []
             w.keep.append(writers[wd["id"]][0])
         if len(writers) > 1:
